@@ -136,6 +136,11 @@ def _type_test_kind(eq: FuncInfo):
             l, r = ast.unparse(n.test.left), ast.unparse(n.test.comparators[0])
             if {l, r} == {f"type({s})", f"type({o})"} and n.body and isinstance(n.body[-1], ast.Return) and isinstance(n.body[-1].value, ast.Constant) and n.body[-1].value.value is False:
                 kinds.append(("exact-guard", n))
+        if isinstance(n, ast.If) and isinstance(n.test, ast.UnaryOp) and isinstance(n.test.op, ast.Not) and isinstance(n.test.operand, ast.Compare) and len(n.test.operand.ops) == 1 \
+                and isinstance(n.test.operand.ops[0], (ast.Eq, ast.Is)):
+            l, r = ast.unparse(n.test.operand.left), ast.unparse(n.test.operand.comparators[0])
+            if {l, r} == {f"type({s})", f"type({o})"} and n.body and isinstance(n.body[-1], ast.Return) and isinstance(n.body[-1].value, ast.Constant) and n.body[-1].value.value is False:
+                kinds.append(("exact-guard", n))
         if isinstance(n, ast.Call) and isinstance(n.func, ast.Name) and n.func.id == "isinstance" and n.args and isinstance(n.args[0], ast.Name) and n.args[0].id == o:
             kinds.append(("isinstance", n))
         if isinstance(n, ast.Call) and isinstance(n.func, ast.Attribute) and n.func.attr == "__eq__" and isinstance(n.func.value, ast.Call) and getattr(n.func.value.func, "id", "") == "super":
@@ -241,18 +246,20 @@ def rule_eqstate(ctx):
             problems.append(("fields", f"field(s) {missing} are part of the object's state but are not read on both sides by {eq.qualname}: two objects differing only there compare equal"))
         kinds = _type_test_kind(eq)
         tk = [k for k, _ in kinds]
-        if "exact-guard" in tk:
-            g = next(n for k, n in kinds if k == "exact-guard")
-            o_ = eq.params[1].name
-            early = [n for n in ast.walk(eq.node) if isinstance(n, ast.Attribute) and isinstance(n.value, ast.Name) and n.value.id == o_ and (n.lineno, n.col_offset) < (g.lineno, g.col_offset)]
-            top = g in eq.node.body
-            if early or not top:
-                problems.append(("guard", "an attribute of the other operand is read before the exact-type guard"))
-        elif "exact" in tk or "super" in tk:
-            test_node = next(n for k, n in kinds if k in ("exact", "super"))
-            ok, bad = _other_reads_guarded(eq, test_node)
-            if not ok:
-                problems.append(("guard", f"`{norm(bad)}` reads an attribute of the other operand where the exact-type test does not protect it: a foreign operand raises AttributeError instead of comparing unequal"))
+        s_, o_ = eq.params[0].name, eq.params[1].name
+        exact_forms = {f"type({o_}) == type({s_})", f"type({s_}) == type({o_})", f"type({o_}) is type({s_})", f"type({s_}) is type({o_})",
+                       f"super().__eq__({o_})"}
+        if {"exact", "exact-guard", "super"} & set(tk):
+            # every read of the other operand's attributes must be dominated by the exact-type test
+            from .astutil import facts_at
+            unparse = lambda e: " ".join(ast.unparse(e).split())
+            for n in ast.walk(eq.node):
+                if isinstance(n, ast.Attribute) and isinstance(n.value, ast.Name) and n.value.id == o_ and n.attr != "__class__":
+                    facts = facts_at(prog, eq, n, unparse)
+                    neg = {f"not {x}" for x in exact_forms} | ({x.replace(" == ", " != ").replace(" is ", " is not ") for x in exact_forms} - exact_forms)
+                    if not (facts & exact_forms) or (facts & neg):
+                        problems.append(("guard", f"`{norm(n)}` reads an attribute of the other operand where the exact-type test does not protect it: a foreign operand raises AttributeError instead of comparing unequal"))
+                        break
         elif "isinstance" in tk:
             problems.append(("type", "the type test uses isinstance(other, ...): asymmetric between a class and its subclasses"))
         else:
@@ -274,22 +281,56 @@ def rule_eqstate(ctx):
         else:
             inst["verdict"] = "all state compared; exact symmetric type test first"
             r.ok()
-    # the prepared callable is compared through Condition._members: name, args, kwargs
+    # the prepared callable is compared by name, args and kwargs - in Condition.__eq__ itself or in
+    # the private helpers it calls (whatever they are named)
+    from ..flatten import helper_closure
     cond = prog.cls("conditions.Condition")
-    mem = cond.lookup_method("_members")
-    inst = {"class": "conditions.PreparedConditionCallable (via Condition._members)"}
+    ceq = cond.lookup_method("__eq__")
+    inst = {"class": "conditions.PreparedConditionCallable (through Condition.__eq__ and its helpers)"}
     r.instances.append(inst)
-    if mem is None:
-        r.fail(Finding("R-EQSTATE", "R-EQSTATE|conditions.Condition._members|missing", "valida/conditions.py:1", "Condition._members not found", []))
+    if ceq is None:
+        r.fail(Finding("R-EQSTATE", "R-EQSTATE|conditions.Condition._members|missing", "valida/conditions.py:1", "Condition.__eq__ not found", []))
     else:
-        txt = ast.unparse(mem.node)
+        fns = helper_closure(prog, ceq)
+        txt = " ".join(ast.unparse(g.node) for g in fns)
         need = {"name": ".callable.name" in txt or ".callable.func" in txt, "args": ".callable.args" in txt, "kwargs": ".callable.kwargs" in txt}
+        if ".callable ==" in txt or "== other.callable" in txt or ".callable !=" in txt:
+            peq = prog.cls("conditions.PreparedConditionCallable").lookup_method("__eq__")
+            if peq is not None:
+                ptxt = ast.unparse(peq.node)
+                need = {"name": ".name" in ptxt or ".func" in ptxt, "args": ".args" in ptxt, "kwargs": ".kwargs" in ptxt}
         inst["reads"] = need
+        inst["functions"] = [g.qualname for g in fns]
         if all(need.values()):
             r.ok()
         else:
-            r.fail(Finding("R-EQSTATE", "R-EQSTATE|conditions.Condition._members|fields", f"{mem.file}:{mem.node.lineno}",
-                           f"Condition._members must cover the callable's name, args and kwargs; missing: {[k for k, v in need.items() if not v]}", []))
+            r.fail(Finding("R-EQSTATE", "R-EQSTATE|conditions.Condition._members|fields", f"{ceq.file}:{ceq.node.lineno}",
+                           f"condition equality must cover the callable's name, args and kwargs; missing: {[k for k, v in need.items() if not v]}", []))
+    # equality identifies the comparison function by its __name__: every function a DSL constructor
+    # binds must be a plain `def` of the callables module, so that distinct functions have distinct names
+    from ..hints import dsl_bindings
+    callables = prog.module("callables")
+    seen = set()
+    for (c, f, ent, call) in dsl_bindings(prog):
+        if ent.qualname in seen:
+            continue
+        seen.add(ent.qualname)
+        ok = ent.name in callables.functions and callables.functions[ent.name] is ent and not ent.node.decorator_list
+        inst = {"callable": ent.qualname, "plain def": ok}
+        r.instances.append(inst)
+        if ok:
+            r.ok()
+        else:
+            r.fail(Finding("R-EQSTATE", f"R-EQSTATE|callable-name|{ent.name}", f"{ent.file}:{ent.node.lineno}",
+                           f"callables.{ent.name} is not a plain function definition (decorated / generated): its __name__, which condition equality compares, need not be `{ent.name}`", []))
+    for name, v in callables.constants.items():
+        if name.startswith("_"):
+            continue
+        if isinstance(v, (ast.Call, ast.Name, ast.Lambda, ast.Attribute)):
+            inst = {"callable": f"callables.{name}", "plain def": False}
+            r.instances.append(inst)
+            r.fail(Finding("R-EQSTATE", f"R-EQSTATE|callable-name|{name}", f"{callables.relpath}:{v.lineno}",
+                           f"callables.{name} is bound by assignment (`{name} = {norm(v)[:60]}`), not defined with `def {name}`: its __name__, which condition equality compares, can coincide with another function's", []))
     return r
 
 
